@@ -1,13 +1,79 @@
-import Proofs.Basic
+import Proofs.RoundTrip
 /-!
-# C02 — parsing inverts serialization
+# C02 — parsing inverts serialization; re-serialization is byte-exact
+
+**Proved (`C02_flat_*`)**: for every message whose header, body and trailer are built from fields and nested
+components (no repeating groups), with pairwise distinct tags free of SOH and '=' and canonical values: parsing
+its serialization into a blank twin succeeds and yields exactly its populated fields — every field from its own
+bytes, whatever the values spell (`58=35=Z` does not disturb tag 35: that is the scan lemma at work) — and
+serializing the result again gives the same bytes.
+
+**Partial**: the same statement for templates with repeating groups (`C02_full`) is *not* proved: the group
+branch cuts the entry slices with `splitGroup` by the first entry tag, and the induction over nested groups with
+re-occurring tags did not close in the time available. It is validated by the correspondence check (random
+templates to depth 5, all tests/fix44 messages) and the population shadow; the building blocks it needs are
+proved: the wire image of groups (`C17_wire`), boundary-exact lookups (`C18_scan`), no panic (`C11_unmarshal`).
+
+Known finding F-C02-trailer: populated trailer fields are not serialized, hence cannot come back; the theorem
+says what comes back for the trailer (blank).
 -/
 
-/-- String, Raw and Bool values: `FromBytes (ToBytes v) = v` -/
+/-- values: `FromBytes (ToBytes v) = v` for everything a constructor or setter builds -/
+theorem C02_values :
+    (∀ s, (Val.newString s).Canon) ∧ (∀ b, (Val.newRaw (some b)).Canon) ∧ (∀ b, (Val.newBool b).Canon)
+    ∧ (∀ n, int64Min ≤ n → n ≤ int64Max → (Val.newInt n).Canon) ∧ (∀ n, n ≤ uint64Max → (Val.newUint n).Canon)
+    ∧ (∀ t, floatOK t = true → (Val.newFloat t).Canon) ∧ (∀ t, timeCanon t = some t → (Val.newTime t).Canon) :=
+  ⟨canon_newString, canon_newRaw, canon_newBool, canon_newInt, canon_newUint, canon_newFloat, canon_newTime⟩
+
 theorem C02_value_roundtrip_str (t : Bytes) :
     (Val.blank .str).fromBytes t = some (Val.newString t) ∧ (Val.blank .raw).fromBytes t = some (Val.newRaw (some t)) := by
   simp [Val.fromBytes, Val.blank, Val.newString, Val.newRaw]
 
-theorem C02_value_roundtrip_bool (b : Bool) :
-    (Val.blank .bool).fromBytes (Val.newBool b).text = some (Val.newBool b) := by
-  cases b <;> simp [Val.fromBytes, Val.blank, Val.newBool]
+/-- **parse ∘ serialize** on flat messages -/
+theorem C02_flat_roundtrip (m t : Msg) (h : FlatOK m) (tw : Twin m t)
+    (hc : ∀ p ∈ kvsList m.header ++ kvsList m.body, p.2.Canon) :
+    t.unmarshal m.encode = .ok m.parsed := unmarshal_encode m t h tw hc
+
+/-- what came back is what was populated: same leaves in header and body, nothing in the trailer -/
+theorem C02_flat_same_fields (m : Msg) :
+    leavesList m.parsed.header = leavesList m.header ∧ leavesList m.parsed.body = leavesList m.body
+    ∧ m.parsed.bs.text = m.bs.text ∧ m.parsed.mt.text = m.mt.text :=
+  ⟨leavesList_norm _, leavesList_norm _, rfl, rfl⟩
+
+/-- **serialize ∘ parse ∘ serialize = serialize** on flat messages (byte-exact) -/
+theorem C02_flat_reserialize (m t : Msg) (h : FlatOK m) (tw : Twin m t)
+    (hc : ∀ p ∈ kvsList m.header ++ kvsList m.body, p.2.Canon) :
+    ∃ m', t.unmarshal m.encode = .ok m' ∧ m'.encode = m.encode :=
+  ⟨m.parsed, unmarshal_encode m t h tw hc, parsed_encode m h⟩
+
+/-- the integrity check accepts everything the serializer produces (flat messages) -/
+theorem C02_accepts_own_output (m t : Msg) (h : FlatOK m)
+    (ht : t.bsTag = m.bsTag ∧ t.blTag = m.blTag ∧ t.csTag = m.csTag) : validateRaw t m.encode = .ok () :=
+  validateRaw_encode m t h ht
+
+/-- the full statement, groups included — not proved (see above) -/
+def C02_full : Prop :=
+  ∀ (m t : Msg), c17Pre m = true → (∀ k ∈ m.tags, SOH ∉ k ∧ EQ ∉ k) → m.tags.Nodup →
+    t.bsTag = m.bsTag → t.blTag = m.blTag → t.csTag = m.csTag → t.mtTag = m.mtTag →
+    t.header = blankList m.header → t.body = blankList m.body → t.trailer = blankList m.trailer →
+    ∃ m', t.unmarshal m.encode = .ok m' ∧ m'.encode = m.encode
+
+/-- non-vacuity: a message with a header field, a nested component, an unpopulated field and a value that spells
+    another field's tag (`58` holds `35=Z`) satisfies the hypotheses -/
+def exMsg : Msg :=
+  Msg.new [56] [57] [49, 48] [51, 53] [70, 73, 88] [68]
+    [.kv [52, 57] (Val.newString [65])]
+    [.kv [53, 56] (Val.newString [51, 53, 61, 90]), .comp [.kv [49, 49] (Val.newInt 7), .kv [49, 50] (Val.blank .str)]]
+    [.kv [56, 57] (Val.blank .str)]
+
+example : FlatOK exMsg := by
+  constructor <;> decide
+
+example : ∀ p ∈ kvsList exMsg.header ++ kvsList exMsg.body, p.2.Canon := by
+  intro p hp
+  simp [exMsg, Msg.new, kvsList, Item.kvs] at hp
+  rcases hp with rfl | rfl | rfl | rfl
+  · exact canon_newString _
+  · exact canon_newString _
+  · exact canon_newInt 7 (by decide) (by decide)
+  · intro h; simp [populated, Val.blank] at h
